@@ -26,6 +26,15 @@ def native_tables(pid, which):
         if 'aliases' in which:
             from contracts.aliases import enumerate_aliases
             rows += enumerate_aliases(C)
+        if 'exprs' in which:
+            from contracts.exprs import enumerate_junctions, check_opnames
+            n, bad = enumerate_junctions(C)
+            rows.append(('repr/str junction table (node form x slot x operand class)', n, bad))
+            n, bad = check_opnames(C)
+            rows.append(('opnames', n, bad))
+            from contracts.exprs import enumerate_evaluation
+            n, bad = enumerate_evaluation(C)
+            rows.append(('expression evaluation (node form x operand kind x call shape), spy operands', n, bad))
         for name, n, bad in rows:
             out['tables'].append({'table': name, 'entries': n, 'mismatches': len(bad), 'exhaustive': True})
             if bad:
@@ -68,12 +77,27 @@ PROPS = {
                 assumptions=PY_SEM + [E5, 'lengths/counts are non-negative and moduli >= 2 (documented exemption)']),
     'C10': dict(functional=True, generic=False, level='proof', trusted_base=[], assumptions=PY_SEM, claimed=False,
                 level_text='bit/byte regrouping helpers proved against MSB-first specifications', level_note='helpers only so far'),
-    'C09': dict(functional=True, generic=False, level='proof', trusted_base=[], assumptions=PY_SEM, claimed=False, level_text='wip', level_note='wip'),
-    'C13': dict(functional=True, generic=True, level='proof', trusted_base=[], assumptions=PY_SEM, claimed=False, level_text='wip', level_note='wip'),
-    'C14': dict(functional=True, generic=False, level='proof', trusted_base=[], assumptions=PY_SEM, claimed=False, level_text='wip', level_note='wip'),
-    'C08': dict(functional=True, generic=False, level='proof', trusted_base=[], assumptions=PY_SEM, claimed=False, level_text='wip', level_note='wip'),
-    'C01': dict(functional=False, generic=False, level='proof', trusted_base=[], assumptions=PY_SEM, claimed=False, level_text='wip', level_note='wip'),
-    'C07': dict(functional=True, generic=False, level='proof', trusted_base=[], assumptions=PY_SEM, claimed=False, level_text='wip', level_note='wip'),
+    'C09': dict(functional=True, generic=False, level='proof', trusted_base=[], assumptions=PY_SEM,
+                level_text='Peek: position restored on success, on a swallowed ConstructError and when ExplicitError propagates; result is the inner value or None. Pointer._parse: inner construct processed at the absolute (or end-relative) target, position restored. RawCopy._parse: final position is the end of the inner parse. Stream helpers: exact seek/tell semantics. Select, GreedyRange, Union and the build side of Pointer are covered by the cross-cutting clauses (no swallowed ExplicitError, frames) but not yet by functional position clauses.',
+                level_note='Trusted: pyvc, solvers, E3.'),
+    'C13': dict(functional=True, generic=True, level='proof', trusted_base=[], assumptions=PY_SEM,
+                level_text="Const (parse accepts only a value == the constant, build always emits the constant's encoding and refuses any other supplied value with ConstError), Check (parse and build raise CheckError exactly when the condition is falsy), Validator and through it ExprValidator/OneOf/NoneOf (decode and encode are the same predicate: admit-on-parse iff admit-on-build iff predicate), Enum and Mapping encode/decode (unknown labels are MappingError, known labels/values translate through the tables, unmapped integers of any magnitude pass through unchanged) are proved against their contracts. For every core class: an ExplicitError raised by a sub-construct is never swallowed, through every handler and loop (Select, Optional, GreedyRange, Peek for parse and build). FlagsEnum and the mutual inverseness of the Enum tables built by __init__ are not yet under contract.",
+                level_note='Label tables are uninterpreted finite maps; validators are pure functions of (object, context). Trusted: pyvc, solvers.'),
+    'C14': dict(functional=True, generic=False, level='proof', trusted_base=[], assumptions=PY_SEM,
+                level_text='RawCopy._parse is proved to return data == the stream slice between the reported offsets, length == their difference, value == the inner value, offsets == absolute positions before/after, final position == end of the inner parse, buffer unchanged. RawCopy._build and Checksum are covered only by the cross-cutting clauses so far.',
+                level_note='Trusted: pyvc, solvers, E3. Hash collision-freedom would be an explicit assumption (not yet needed).'),
+    'C08': dict(functional=True, generic=False, level='proof', trusted_base=[], assumptions=PY_SEM,
+                level_text='BytesIOWithOffsets.tell/seek and from_reading are proved against the abstract substream model (tell = inner position + parent offset; absolute seek subtracts it; the substream holds exactly the next n bytes and starts reporting at the absolute outer position); FixedSized and Prefixed (with and without includelength) are proved to hand their inner construct a substream over exactly the region, to return its value, and to leave the outer stream at the region end whatever the inner construct consumed; Pointer and RawCopy offsets are absolute. NullTerminated, NullStripped, OffsettedEnd and ProcessXor are covered only by the cross-cutting clauses so far.',
+                level_note='Inner constructs are known through the interface functions, whose arguments include the absolute base of the stream. Trusted: pyvc, solvers, E3.'),
+    'C01': dict(functional=False, generic=False, level='proof', trusted_base=[], assumptions=PY_SEM,
+                level_text='Round-trip lemma proved as a ghost program over the verified method contracts (build, then parse the built bytes followed by arbitrary trailing data: parse succeeds, returns the value build returned and consumes exactly the built bytes) for: Padded, Aligned, FixedSized, Prefixed, Const, Flag, Bytes, GreedyBytes and FormatField in its 27 integer/bool formats. The lemma is parametric in the sub-constructs (any construct satisfying the round-trip trait, at any nesting depth, by structural induction) and holds for all values, lengths, moduli and trailing data. Struct is verified against specification folds (Layer A) but its fold round-trip lemma, VarInt/ZigZag/BytesInteger/BitsInteger, strings, arrays and the remaining combinators are not yet under this lemma.',
+                level_note='Hypotheses (listed in the evidence): round-trip and sized traits of sub-constructs (induction hypotheses), context agreement, sub-constructs that do not observe absolute stream positions, value-faithful length fields. Trusted: pyvc, solvers, E1-E3.'),
+    'C07': dict(functional=True, generic=False, level='proof', trusted_base=[], assumptions=PY_SEM,
+                level_text="Struct._parse and Struct._build are proved equal, member by member for any number of members, to specification folds over the member list (loop invariant: state after k members = fold(k)); the nested scope is proved to be a child of the enclosing scope (_ is the enclosing scope, _params/_parsing/_building/_sizing copied, _root resolved through the parent, _index inherited), fresh and distinct; every named member value is stored in the scope and in the result after the member and before the next one; when building, all supplied siblings are in the scope before the first member is built and each member's returned value replaces it afterwards. evaluate() returns the parameter's value in the context it is given. Sequence, FocusedSeq, Union, LazyStruct, Array/_index and the public entry points are covered only by the cross-cutting frame clauses (C17), not yet by this functional contract.",
+                level_note='Members are sub-constructs known through the interface functions; member names are assumed not to shadow the reserved scope keys. Trusted: pyvc, solvers.'),
+    'C11': dict(functional=True, generic=False, level='proof', trusted_base=[], assumptions=PY_SEM, extra=native_tables('C11', ('exprs',)),
+                level_text="Every operator method of ExprMixin (12 binary, 12 reflected, 3 unary, 7 comparison/containment) is proved by symbolic execution to build the node Python's data model prescribes (operator and operand order). Printing and evaluation are decided by complete enumeration of finite tables on the real classes: every node form x slot x syntactic class of operand is rendered with repr and str, evaluated by Python itself with the placeholders bound, and compared with the operator tree (a junction's parse depends only on the class of the operand text, so by structural induction the result holds for every tree); evaluation is checked with spy operands for every operand kind and both call shapes; opnames is checked entry by entry.",
+                level_note="Python's own parser/evaluator is the trusted grammar. The induction step (junction independence) is an argument, not a machine-checked proof."),
     'C17': dict(functional=False, generic=True, level='proof', trusted_base=[E3],
                 level_text='Frame conditions for ' + GENERIC_NOTE + ': no method stores to an attribute of self, of a sub-construct, of a class or module; parsing leaves the stream buffer unchanged; the context argument is modified only at _index and unrelated pre-existing containers are untouched (proved through every loop as an invariant). Outcomes of sub-construct calls are functions of (construct, buffer, position, context), so repeated or interleaved calls agree. Threads are not explored: with the frames proved, calls share no mutable state except caller-supplied arguments.',
                 level_note='Thread schedules are argued from the frames, not explored. parse_file/build_file and the bytes/bytearray/memoryview entry points are not under contract yet. Documented exceptions (Rebuffered.stream2, Debugger.retval) are out of scope.',
